@@ -36,7 +36,7 @@ for sd in seeds:
                 cmd += ['--repo', repo]
             r = subprocess.run(cmd, cwd=VERIF, capture_output=True, text=True)
             vio = [l for l in r.stdout.split('\n') if l.startswith('VIOLATION')]
-            res[p] = {'exit': r.returncode, 'violations': vio[:6],
+            res[p] = {'exit': r.returncode, 'tier': opts.get('--tier', 'quick'), 'violations': vio[:6],
                       'inconclusive': [l for l in r.stderr.split('\n') if l.startswith('INCONCLUSIVE')][:6]}
             print('%-8s %-4s exit=%d %s' % (sd, p, r.returncode, (vio[0][:230] if vio else
                   (res[p]['inconclusive'][0][:200] if res[p]['inconclusive'] else ''))))
